@@ -11,11 +11,17 @@
 (* determined; C10: identical selections under both number decodings.           *)
 EXTENDS GenCommon
 CONSTANTS MaxMembers, QDepth, Kinds,    \* Kinds: "arr" | "both"
-          RootSet                      \* "all" | "two"
+          RootSet                      \* "all" | "two" | "deep" (path == path between containers and zero values)
 
 N15 == Num(1500)
-MemberPool == { Oa(N1), Oa(N2), Oa(N15), Ob(N1), Oa(Sa), Oa(Null), Oa(Bool(TRUE)), Oab(N1, N2), Oab(N2, N2), N1, Sa, Null, Oa(Arr(<<N1>>)) }
-RootVals == IF RootSet = "two" THEN { [x |-> <<>>, y |-> <<>>], [x |-> <<N2>>, y |-> <<N1>>] }
+\* "deep": deep equality.  Empty and one-element containers of both kinds and the zero value of every type, on
+\* both sides of `path == path`: [] is not {}, neither is 0, "", false or null, [1] is not {"b":1}.
+AE0 == Arr(<<>>)   OE0 == Obj(<<>>)   A1 == Arr(<<N1>>)   B1 == Obj(<<KV(kb, N1)>>)   Z0 == Num(0)   S0 == Str(<<>>)   F0 == Bool(FALSE)
+DeepVals == {AE0, OE0, A1, B1, Z0, S0, F0, Null, Arr(<<AE0>>), Arr(<<OE0>>)}
+MemberPoolStd == { Oa(N1), Oa(N2), Oa(N15), Ob(N1), Oa(Sa), Oa(Null), Oa(Bool(TRUE)), Oab(N1, N2), Oab(N2, N2), N1, Sa, Null, Oa(Arr(<<N1>>)) }
+MemberPool == IF RootSet = "deep" THEN {Oa(v) : v \in DeepVals} \cup {AE0, OE0, Ob(N1)} ELSE MemberPoolStd
+RootVals == IF RootSet = "deep" THEN {[x |-> <<>>, y |-> <<>>]} \cup {[x |-> <<v>>, y |-> <<AE0>>] : v \in DeepVals}
+            ELSE IF RootSet = "two" THEN { [x |-> <<>>, y |-> <<>>], [x |-> <<N2>>, y |-> <<N1>>] }
             ELSE { [x |-> <<>>, y |-> <<>>], [x |-> <<N1>>, y |-> <<>>], [x |-> <<N2>>, y |-> <<N1>>], [x |-> <<Sa>>, y |-> <<N2>>] }
 
 Pa == Cur(<<Nm(ka)>>)   Pb == Cur(<<Nm(kb)>>)   Px == Root(<<Nm(<<120>>)>>)   Py == Root(<<Nm(<<121>>)>>)
@@ -41,7 +47,8 @@ Pairs == {And(a, b) : a \in Core, b \in Core} \cup {Or(a, b) : a \in Core, b \in
 Small == { Exist(Pa), NotP(Pb), Cmp("==", Pa, Lit(N1)), Cmp("!=", Pa, Py), Exist(Px) }
 Triples == {And(Paren(Or(a, b)), c) : a \in Small, b \in Small, c \in Small} \cup {Or(And(a, b), c) : a \in Small, b \in Small, c \in Small}
            \cup {Or(a, Paren(And(b, c))) : a \in Small, b \in Small, c \in Small} \cup {And(And(a, b), c) : a \in Small, b \in Small, c \in Small}
-Queries == Atoms \cup (IF QDepth >= 2 THEN Pairs ELSE {}) \cup (IF QDepth >= 3 THEN Triples ELSE {})
+DeepAtoms == {Cmp(op, pr[1], pr[2]) : op \in EqOps, pr \in {<<Pa, Px>>, <<Px, Pa>>, <<Cur(<<>>), Px>>, <<Px, Cur(<<>>)>>, <<Pa, Py>>, <<Px, Py>>, <<Py, Px>>}}
+Queries == IF RootSet = "deep" THEN DeepAtoms ELSE Atoms \cup (IF QDepth >= 2 THEN Pairs ELSE {}) \cup (IF QDepth >= 3 THEN Triples ELSE {})
 
 \* injective member sequences
 Seqs(n) == {s \in [1..n -> MemberPool] : \A i \in 1..n, j \in 1..n : i # j => s[i] # s[j]}
